@@ -64,3 +64,36 @@ Qed.
 
 Lemma clean_app a b : clean_trailing_path (a ++ b) = clean_trailing_path a ++ clean_trailing_path b.
 Proof. unfold clean_trailing_path. apply filter_app. Qed.
+
+(* ---------------- C13: a page deeper on the same site extends the stems of its ancestor ---------------- *)
+Lemma split_c_go_app (c : N) (a b cur : str) :
+  split_c_go c (a ++ c :: b) cur = split_c_go c a cur ++ split_c_go c b [].
+Proof.
+  revert cur. induction a as [|x a IH]; intros cur; cbn [app split_c_go].
+  - rewrite N.eqb_refl. reflexivity.
+  - destruct (x =? c); [rewrite IH; reflexivity|apply IH].
+Qed.
+
+Lemma split_c_app (c : N) (a b : str) : split_c c (a ++ c :: b) = split_c c a ++ split_c c b.
+Proof. apply split_c_go_app. Qed.
+
+Lemma tl_app_nonempty {A} (x y : list A) : x <> [] -> tl (x ++ y) = tl x ++ y.
+Proof. destruct x; [congruence|reflexivity]. Qed.
+
+(* the stems of a parsed url depend on its five components; an ancestor page (same scheme and netloc, no
+   userinfo, no query, no fragment, a path that is a whole-segment prefix) has a stem list that is a prefix
+   of the stems of every page below it -- whatever the suffix trie and suffix_aware *)
+Theorem stems_of_descendant (t : snode) (sa : bool) (r1 r2 : SplitResult) (more : str) :
+  scheme r2 = scheme r1 -> netloc r2 = netloc r1 ->
+  rcut [64] (netloc r1) = None ->
+  query r1 = [] -> fragment r1 = [] ->
+  path r2 = path r1 ++ 47 :: more ->
+  exists ext, lru_stems_from_parsed t r2 sa = lru_stems_from_parsed t r1 sa ++ ext.
+Proof.
+  intros Hs Hn Hu Hq Hf Hp. unfold lru_stems_from_parsed.
+  assert (hostname r2 = hostname r1) as Hh by (unfold hostname; rewrite Hn; reflexivity).
+  rewrite Hs, Hn, Hh, Hu, Hq, Hf, Hp. cbv zeta.
+  rewrite split_c_app. rewrite tl_app_nonempty by apply split_c_nonempty. rewrite map_app.
+  cbn [app]. rewrite !app_nil_r.
+  eexists. rewrite <- !app_assoc. reflexivity.
+Qed.
